@@ -719,6 +719,15 @@ fn exec_op_inner<C: Cv, CS: ConstraintSystem<Fr<C>>>(
 }
 
 /// Body of a deferred callback, for either role.
+/// the prover's assignment of every gate, as read through the hook (C16: a half gate is closed with right wire and output zero)
+fn gates_snapshot<C: Cv, CS: ConstraintSystem<Fr<C>>>(cs: &CS, cx: &Ctx<C>, hk: &Hooks<C, CS>, when: &str) {
+    if let (Some(gate), true) = (hk.gate, cx.record) {
+        let n = cs.multipliers_len();
+        let vals: Vec<Value> = (0..n).map(|i| { let (l, r, o) = gate(cs, i); json!([enc_s::<C>(&l), enc_s::<C>(&r), enc_s::<C>(&o)]) }).collect();
+        cx.events.borrow_mut().push(json!({"ev":"gates","role":cx.role,"when":when,"vals":vals}));
+    }
+}
+
 fn run_cb<C: Cv, CS: ConstraintSystem<Fr<C>>>(
     rcs: &mut CS,
     k: usize,
@@ -735,6 +744,7 @@ fn run_cb<C: Cv, CS: ConstraintSystem<Fr<C>>>(
     for op in &ops {
         exec_op(rcs, op, cx, 2, hk)?;
     }
+    gates_snapshot(rcs, cx, hk, "callback-end");
     Ok(())
 }
 
@@ -926,6 +936,7 @@ pub fn run_prover<C: Cv>(
                 }
             }
             let _ = early;
+            gates_snapshot(&prover, &cx, &hk, "before-prove");
             prover.prove_and_return_transcript(extr, bpr)
         }))
     };
